@@ -365,11 +365,12 @@ func runC11File(c Case, m *Model) (v Verdict) {
 			}
 		}
 	}
-	// every finished tempo change carries the time TimeAt reports for its tick
+	// every finished tempo change carries the time TimeAt reports for its tick (true of the model by construction, not
+	// demanded by the property: correspondence, not oracle)
 	for _, tc := range tcs {
-		if _, in := exactGoIn(sorted, tc.AbsTicks, q); in && judged {
+		if _, in := exactGoIn(sorted, tc.AbsTicks, q); in {
 			if at := s.TimeAt(tc.AbsTicks); at != tc.AbsTimeMicroSec {
-				v.Oracle = append(v.Oracle, fmt.Sprintf("tempo change at tick %d has AbsTimeMicroSec %d but TimeAt says %d", tc.AbsTicks, tc.AbsTimeMicroSec, at))
+				v.Mismatch = append(v.Mismatch, fmt.Sprintf("tempo change at tick %d has AbsTimeMicroSec %d but TimeAt says %d", tc.AbsTicks, tc.AbsTimeMicroSec, at))
 				break
 			}
 		}
@@ -650,6 +651,10 @@ func genGap(r *Rng, q int, u uint32, limit int64, allowZero bool) uint32 {
 func genC11File(r *Rng, tier string) (*c11File, []string) {
 	var tags []string
 	f := &c11File{q: genQ(r)}
+	if r.Chance(1, 150) {
+		f.q = 0 // MetricTicks(0): documented alias of 960
+		tags = append(tags, "q=0(alias-of-960)")
+	}
 	k := 0
 	switch r.Intn(10) {
 	case 0:
@@ -982,7 +987,7 @@ func init() {
 		Gen: func(r *Rng, tier string, emit func(Case)) {
 			nFiles, nDur, perDur, nInv, perInv := 1200, 2000, 50, 400, 25
 			if tier == "thorough" {
-				nFiles, nDur, perDur, nInv, perInv = 100000, 50000, 200, 20000, 50
+				nFiles, nDur, perDur, nInv, perInv = 80000, 40000, 250, 10000, 100
 			}
 			for i := 0; i < nFiles; i++ {
 				f, tags := genC11File(r, tier)
